@@ -406,6 +406,36 @@ func (c *Ctx) nilPassThrough(a *a3, info *types.Info, body *ast.BlockStmt, rest 
 	if !ok || len(r1.Results) != 1 {
 		return false
 	}
+	// early return: "if f == nil { return K }; f(...); return K" — the nil path
+	// skips nothing but invocations of the callback and returns the same
+	// literal or variable.
+	if r2, ok := rest[len(rest)-1].(*ast.ReturnStmt); ok && len(r2.Results) == 1 {
+		simple := func(e ast.Expr) bool {
+			switch ast.Unparen(e).(type) {
+			case *ast.BasicLit, *ast.Ident:
+				return true
+			}
+			return false
+		}
+		if simple(r1.Results[0]) && simple(r2.Results[0]) && types.ExprString(r1.Results[0]) == types.ExprString(r2.Results[0]) {
+			onlyInvocations := true
+			for _, st := range rest[:len(rest)-1] {
+				es, ok := st.(*ast.ExprStmt)
+				if !ok {
+					onlyInvocations = false
+					break
+				}
+				call, ok := es.X.(*ast.CallExpr)
+				if !ok || !a.isCallbackIdent(call.Fun) {
+					onlyInvocations = false
+					break
+				}
+			}
+			if onlyInvocations {
+				return true
+			}
+		}
+	}
 	r2, ok := rest[len(rest)-1].(*ast.ReturnStmt)
 	if !ok || len(r2.Results) != 1 {
 		return false
